@@ -291,6 +291,7 @@ def cases(tier):
     add("function-lmi", function_lmi=True)
     add("function-lmi-and-constraint", function_lmi=True, function_lmi_with_constraint=True, lmis=['one'])
     add("partition", partition=2)
+    add("two-partitions", partition=2, second_partition=3)
     if tier == 'thorough':
         add("gd2-cons-lmi", steps=['grad', 'grad'], cons=['le', 'eq'], lmis=['three'])
         add("lmi-objects-reversed", lmis=['sym2', 'one'], lmi_objects=True, lmi_reversed=True, lmi_unadded=True)
